@@ -17,6 +17,7 @@ import Pyiga.Proofs.HierTwoScale
 import Pyiga.Proofs.HierAdm
 import Pyiga.Proofs.HierTPAdm
 import Pyiga.Proofs.HierCover
+import Pyiga.Proofs.HierInc
 
 namespace Pyiga.Props.C04
 open Pyiga.Hier Pyiga.Index
@@ -421,6 +422,39 @@ theorem active_cover_down (kvs : Mesh) (d : Option Nat) (hg : GoodMesh kvs) {s :
     rw [← anc_add, show j - j' - 1 + 1 + j' = j by omega, hc] at hde
     obtain ⟨Ω, hΩ'⟩ := wf_level kvs hw (lv - j) (by omega)
     exact hΩ'.disj c h1 hde
+
+/-! ## incidence matrix -/
+
+/-- **incidence.**  After any history, `incidence_matrix()` (model: one list of column numbers per
+row) has its rows in canonical function order — level by level, functions sorted, i.e. the order of
+`active_functions(flat=True)` — and the row of the active function `f` of level `k` is the list of
+canonical numbers `encP` of the cells in `cellRow … k f`; a pair `(m, c)` is in that cell row iff
+`c` is an active cell of a level `m ≥ k` whose level-`k` ancestor lies in `supp f` (the
+cell-prolongation product computes exactly the active descendants of the support); and the
+canonical number of an active cell is its position in `active_cells(flat=True)`. -/
+theorem incidence (kvs : Mesh) (d : Option Nat) (hg : GoodMesh kvs) {s : HSpace}
+    (h : Reachable kvs d s) :
+    s.incidence = (mapFrom (fun k (_ : Level) => (sortIdx (s.level k).actfun).map
+        (fun f => (cellRow kvs s.levels (s.numlevels - 1) k f).map (encP s.levels))) 0 s.levels).flatten ∧
+    (∀ k f m c, k < s.numlevels → f ∈ (s.level k).actfun →
+      ((m, c) ∈ cellRow kvs s.levels (s.numlevels - 1) k f ↔
+        k ≤ m ∧ m < s.numlevels ∧ c ∈ (s.level m).act ∧ anc parTp (m - k) c ∈ supp kvs k f)) ∧
+    (∀ m c, m < s.numlevels → c ∈ (s.level m).act →
+      s.activeCellsFlat[encP s.levels (m, c)]? = some (m, c)) := by
+  have hw := reachable_wf kvs d hg h
+  obtain ⟨hk, hinv⟩ := hw
+  refine ⟨?_, ?_, ?_⟩
+  · have := incidence_eq s (by rw [hk]; exact hg.1) (by rw [hk]; exact hinv)
+    rw [hk] at this
+    exact this
+  · intro k f m c hkl hf
+    exact mem_cellRow_final hg.1 hinv k hkl f hf m c
+  · intro m c hm hc
+    have h1 := (enc_active s.levels (t := m) (c := c) hm hc).1
+    have h2 := flat_getElem_enc s.levels 0 m c hm hc
+    unfold HSpace.activeCellsFlat
+    show (mapFrom _ 0 s.levels).flatten[encCell s.levels m c]? = _
+    rw [h1, h2, Nat.zero_add]
 
 /-! ## non-vacuity -/
 
